@@ -4,9 +4,9 @@ use crate::support::*;
 use educe::Educe;
 use core::cmp::Ordering;
 #[derive(Educe)]
-#[educe(PartialEq, Eq)]
-pub enum T { Unit(A<0>, A<1>), Some(), C(#[educe(Eq = false)] A<0>, A<0>) }
-pub fn values() -> Vec<T> { vec![T::Unit(A(0), A(0)), T::Unit(A(0), A(1)), T::Unit(A(0), A(7)), T::Unit(A(1), A(0)), T::Unit(A(1), A(1)), T::Unit(A(1), A(7)), T::Unit(A(7), A(0)), T::Unit(A(7), A(1)), T::Unit(A(7), A(7)), T::Some(), T::C(A(0), A(0)), T::C(A(0), A(1)), T::C(A(0), A(7)), T::C(A(1), A(0)), T::C(A(1), A(1)), T::C(A(1), A(7)), T::C(A(7), A(0)), T::C(A(7), A(1)), T::C(A(7), A(7))] }
-pub fn show(x: &T) -> String { #[allow(unused_variables)] match x { T::Unit(p0, p1) => format!("Unit({},{})", sv(p0), sv(p1)), T::Some() => format!("Some()"), T::C(p0, p1) => format!("C({},{})", sv(p0), sv(p1)) } }
-pub fn o_eq(a: &T, b: &T) -> bool { match (a, b) { (T::Unit(a0, a1), T::Unit(b0, b1)) => (a0 == b0) && (a1 == b1), (T::Some(), T::Some()) => true, (T::C(a0, a1), T::C(b0, b1)) => (a1 == b1), _ => false } }
+#[educe(PartialEq)]
+pub enum T { Unit(A<0>), B(A<0>, A<1>), Some, Zed(#[educe(PartialEq(method(m_eq)))] A<0>, A<0>) }
+pub fn values() -> Vec<T> { vec![T::Unit(A(0)), T::Unit(A(1)), T::Unit(A(7)), T::B(A(0), A(0)), T::B(A(0), A(1)), T::B(A(0), A(7)), T::B(A(1), A(0)), T::B(A(1), A(1)), T::B(A(1), A(7)), T::B(A(7), A(0)), T::B(A(7), A(1)), T::B(A(7), A(7)), T::Some, T::Zed(A(0), A(0)), T::Zed(A(0), A(1)), T::Zed(A(0), A(7)), T::Zed(A(1), A(0)), T::Zed(A(1), A(1)), T::Zed(A(1), A(7)), T::Zed(A(7), A(0)), T::Zed(A(7), A(1)), T::Zed(A(7), A(7))] }
+pub fn show(x: &T) -> String { #[allow(unused_variables)] match x { T::Unit(p0) => format!("Unit({})", sv(p0)), T::B(p0, p1) => format!("B({},{})", sv(p0), sv(p1)), T::Some => format!("Some()"), T::Zed(p0, p1) => format!("Zed({},{})", sv(p0), sv(p1)) } }
+pub fn o_eq(a: &T, b: &T) -> bool { match (a, b) { (T::Unit(a0), T::Unit(b0)) => (a0 == b0), (T::B(a0, a1), T::B(b0, b1)) => (a0 == b0) && (a1 == b1), (T::Some, T::Some) => true, (T::Zed(a0, a1), T::Zed(b0, b1)) => m_eq(a0, b0) && (a1 == b1), _ => false } }
 pub fn run(out: &mut Out) { let vs = values(); for a in &vs { for b in &vs { let e = o_eq(a, b); out.check((a == b) == e, "eq_25", "eq", || format!("{} == {} expected {}", show(a), show(b), e)); out.check((a != b) == !e, "eq_25", "ne", || format!("{} != {} expected {}", show(a), show(b), !e)); } } }
